@@ -66,6 +66,10 @@ Qed.
 Lemma is_file_get f p x : fs_get f p = Some (File x) -> is_file f p = true.
 Proof. intros H. unfold is_file, stat. cbn [stat_fuel]. rewrite H. reflexivity. Qed.
 
+(* a hand edit (CEdit, not layercake) is outside the export tree *)
+Definition edit_ok (c : cfgT) (cmd : command) : bool :=
+  match cmd with CEdit p _ => negb (under (c_exports c) p) | _ => true end.
+
 (* ------------------------------------------------------------------ the descent *)
 Section Clobber.
 Variable c : cfgT.
@@ -334,12 +338,33 @@ Proof.
   apply H. eapply get_layers_ok, Eg.
 Qed.
 
-Theorem stepsR_run_command um cmd : steps RR (run_command e c um cmd).
+(* somebody overwrites a file outside the export tree by hand *)
+Lemma stepsR_edit p x : under E p = false ->
+  steps RR (f <- get_fs ;;
+            match open_trunc f p with
+            | FOk f' => put_fs (append_file f' p x) ;;; ret None
+            | FErr => @fail (option ldefs)
+            end).
 Proof.
-  destruct cmd; cbn [run_command].
+  intros Hp s. apply st_get_fs. destruct (open_trunc (fsof s) p) as [f'|] eqn:Ho; [|apply (steps_fail _ RR_refl)].
+  unfold st. cbn. intros p0 nd [Hu Hnl] Hg Hd.
+  assert (Hne : p0 <> p) by (intros ->; congruence).
+  split.
+  - rewrite append_file_get by exact Hne. rewrite (open_trunc_get _ _ _ _ Ho Hne). exact Hg.
+  - intros q r Hq Hpq. destruct (beq q p) eqn:Eqp.
+    + apply beq_eq in Eqp. subst q. exfalso. pose proof (Hd p r Hq Hpq) as Hdir.
+      unfold open_trunc, lstat in Ho. rewrite Hdir in Ho. discriminate Ho.
+    + apply beq_false in Eqp. rewrite append_file_get by exact Eqp.
+      rewrite (open_trunc_get _ _ _ _ Ho Eqp). eapply Hd; eauto.
+Qed.
+
+Theorem stepsR_run_command um cmd : edit_ok c cmd = true -> steps RR (run_command e c um cmd).
+Proof.
+  intros Hedit. destruct cmd; cbn [run_command].
   1: { apply (steps_bind _ RR_trans); [apply stepsR_init_base|intros _; apply (steps_ret _ RR_refl)]. }
   11,12: apply (steps_bind _ RR_trans); [|intros _; apply (steps_ret _ RR_refl)];
          apply (steps_nofs _ RR_refl), nofs_apply_op_kernel; reflexivity.
+  11: { cbn [edit_ok] in Hedit. apply negb_true_iff in Hedit. apply stepsR_edit, Hedit. }
   all: apply steps_get_fs; intros f;
        apply (steps_bind _ RR_trans); [apply (steps_guard _ RR_refl)|intros _];
        apply (steps_get_layers_bind _ RR_refl); intros ld Hld;
